@@ -177,11 +177,11 @@ func TestMakeReplays(t *testing.T) {
 			Batches: []int{2, 1}, Keys: []KeySpec{{Field: "k"}}})
 	// regression: mixed-type key column incl. uint64 > MaxInt64, nulls and missing through the native fast path and spills
 	write("regress-native-fastpath-clamp.json", "TestSortOp", "", "",
-		SortCase{Seq: gen.SeqFromZSON(`{k:18446744073709551615(uint64),_o:1970-01-01T00:00:00Z} {k:9223372036854775807,_o:1970-01-01T00:00:00.000000001Z} {k:null(int64),_o:1970-01-01T00:00:00.000000002Z} `+
-			`{k:9223372036854775808(uint64),_o:1970-01-01T00:00:00.000000003Z} {k:-9223372036854775808,_o:1970-01-01T00:00:00.000000004Z} {k:9223372036854775807,_o:1970-01-01T00:00:00.000000005Z} {_o:1970-01-01T00:00:00.000000006Z}`),
+		SortCase{Seq: gen.SeqFromZSON(`{k:18446744073709551615(uint64),_o:1970-01-01T00:00:00Z} {k:9223372036854775807,_o:1970-01-01T00:00:00.000000001Z} {k:null(int64),_o:1970-01-01T00:00:00.000000002Z} ` +
+			`{k:9223372036854775808(uint64),_o:1970-01-01T00:00:00.000000003Z} {k:-9223372036854775808,_o:1970-01-01T00:00:00.000000004Z} {k:9223372036854775807,_o:1970-01-01T00:00:00.000000005Z} {k:null(uint64),_o:1970-01-01T00:00:00.000000006Z}`),
 			Batches: []int{3, 2, 2}, Keys: []KeySpec{{Field: "k"}}, Nulls: "first"})
 	write("regress-merge-ties.json", "TestMerge", "", "",
-		MergeCase{Seq: gen.SeqFromZSON(`{k:1,r:0,_o:1970-01-01T00:00:00Z} {k:2,r:0,_o:1970-01-01T00:00:00.000000001Z} {k:2,r:0,_o:1970-01-01T00:00:00.000000002Z} `+
+		MergeCase{Seq: gen.SeqFromZSON(`{k:1,r:0,_o:1970-01-01T00:00:00Z} {k:2,r:0,_o:1970-01-01T00:00:00.000000001Z} {k:2,r:0,_o:1970-01-01T00:00:00.000000002Z} ` +
 			`{k:2,r:1,_o:1970-01-01T00:00:00.000000003Z} {k:3,r:1,_o:1970-01-01T00:00:00.000000004Z} {k:null(int64),r:2,_o:1970-01-01T00:00:00.000000005Z} {r:2,_o:1970-01-01T00:00:00.000000006Z} {k:"a",r:2,_o:1970-01-01T00:00:00.000000007Z}`),
 			Lens: []int{3, 2, 3}, Batches: [][]int{{2, 1}, {1}, {1, 2}}, Via: "direct", NullsMax: true})
 }
